@@ -1,6 +1,8 @@
 package main
 
 import (
+	"verif/rt"
+
 	"hash/adler32"
 	"hash/crc32"
 	"hash/fnv"
@@ -114,4 +116,24 @@ func collisionPairs(texts []string, maxPerHash int) []collision {
 		return out[i].a+out[i].b < out[j].a+out[j].b
 	})
 	return out
+}
+
+// collisionHistories feeds every colliding pair back to back (a b a / b a b / a a b b) to visit,
+// which runs the property's normal monitor on one text.
+func collisionHistories(c *rt.Ctx, texts []string, maxPerHash int, minPairs int64, visit func(w *rt.W, t string)) {
+	cols := collisionPairs(texts, maxPerHash)
+	c.Extra("checksum_collision_pairs", len(cols))
+	c.Parallel("checksum-collisions", 0, func(w *rt.W) {
+		for i := w.Shard; i < len(cols); i += w.NShards {
+			a, b := cols[i].a, cols[i].b
+			for _, seq := range [][]string{{a, b, a}, {b, a, b}, {a, a, b, b}} {
+				for _, t := range seq {
+					visit(w, t)
+				}
+			}
+			w.ClassN("checksum-collision-pair:"+cols[i].hash, 1)
+			w.ClassN("checksum-collision-pairs", 1)
+		}
+	})
+	c.Require("checksum-collision-pairs", minPairs)
 }
